@@ -8,6 +8,7 @@
 // ASSUME: GALOIS_DIE/GALOIS_SYS_DIE keep their abort() but drop the message formatting; a reached abort() is an assertion failure
 // OB: ob_csr_enum tier=quick unwind=14 unwindfn=vf_byte_:26 timeout=300 params=7,2 bounds="LC_CSR_Graph<int,uint32_t> and <int,void>: all 35 out-index arrays with nodes 0..3, edges 0..3; destinations (<nodes) and edge data symbolic" desc="allocateFrom(FileGraph)+constructFrom(FileGraph,0,1): nodes, edge_begin/edge_end/getEdgeDst/getEdgeData/getDegree enumerate exactly the input in file order"
 // OB: ob_csr_enum_e4 tier=thorough unwind=14 unwindfn=vf_byte_:26 timeout=300 params=5,2 bounds="as ob_csr_enum: the 21 out-index arrays with 4 edges" desc="allocateFrom+constructFrom(FileGraph,0,1) presents exactly the input (4 edges)"
+// OB: ob_csr_enum_t2 tier=quick unwind=14 unwindfn=vf_byte_:26 timeout=300 params=7,2 bounds="LC_CSR_Graph<int,uint32_t> built by TWO constructing threads (constructFrom(f,tid,2), either thread first): 35 out-index arrays (edges<=3)" desc="the graph presents exactly the input"
 // OB: ob_csr_enum_api tier=quick unwind=14 timeout=300 params=7 bounds="LC_CSR_Graph<int,uint32_t>: 35 out-index arrays (edges<=3); destinations and edge data symbolic" desc="incremental builder allocateFrom(n,e)+constructNodes+fixEndEdge+constructEdge: the graph enumerates exactly the input"
 // OB: ob_csr_enum_api_e4 tier=thorough unwind=14 timeout=300 params=5,2 bounds="uint32_t and void edge data: the 21 out-index arrays with 4 edges" desc="incremental builder presents exactly the input (4 edges)"
 // OB: ob_csr_enum_vectors tier=quick unwind=20 timeout=300 params=7 bounds="LC_CSR_Graph<int,uint32_t>: 35 out-index arrays (edges<=3); std::vector<std::vector<>> inputs with concrete sizes" desc="constructFrom(numNodes,numEdges,prefix_sum,edges_id,edges_data) presents exactly the input; local range = all nodes"
@@ -23,6 +24,7 @@
 // OB: ob_csr_sort_all tier=quick unwind=14 timeout=300 solver=cadical params=7 bounds="uint32_t edge data: 35 out-index arrays (edges<=3)" desc="sortAllEdgesByDst(): every node's edges are a destination-ordered permutation of its input multiset"
 // OB: ob_csr_sort_all_void tier=thorough unwind=14 timeout=300 solver=cadical params=7 bounds="void edge data: 35 out-index arrays (edges<=3)" desc="sortAllEdgesByDst(): every node's edges are a destination-ordered permutation of its input multiset"
 // OB: ob_csr_sort_all_e4 tier=thorough unwind=14 timeout=600 solver=cadical params=5,2 bounds="the 21 out-index arrays with 4 edges" desc="sortAllEdgesByDst (4 edges)"
+// OB: ob_csr_sort_proxy tier=quick unwind=14 timeout=300 params=3 bounds="one node with 4 edges, uint32_t edge data; slot indices i, j symbolic; operation 0: iter_swap, 1: value read + write through the proxy, 2: proxy-to-proxy assignment" desc="the edge-sort proxy protocol std::sort relies on beyond the insertion-sort cut-off (swap / iter_swap of two EdgeSortReferences, EdgeSortValue read and write-back, reference assignment) moves (destination, data) PAIRS: exactly the addressed slots change, as a pair, and every other edge is untouched"
 // OB: ob_csr_find tier=quick unwind=14 timeout=300 params=7 bounds="35 out-index arrays (edges<=3); every source node, symbolic 32-bit key" desc="findEdge(N1,N2): found iff N2 is a neighbour of N1; the returned edge is in N1's range and has destination N2; no access outside the arrays"
 // OB: ob_csr_find_e4 tier=thorough unwind=14 timeout=300 params=5 bounds="the 21 out-index arrays with 4 edges" desc="findEdge (4 edges)"
 // OB: ob_csr_find_sorted tier=quick unwind=14 timeout=300 params=7 bounds="35 out-index arrays (edges<=3), destinations sorted per node (precondition); every source node, symbolic 32-bit key" desc="findEdgeSortedByDst(N1,N2): found iff present, returned edge has destination N2, NO ACCESS OUTSIDE edgeDst[0,numEdges)"
@@ -270,6 +272,40 @@ NOINL void sort_all(unsigned shape) {
   }
 }
 
+
+// ---- the proxy protocol behind std::sort (sorts longer than libstdc++'s insertion-sort cut-off of 16 reach swap /
+// iter_swap / value moves; concrete sorts that long are out of the solver's reach, so the protocol is checked directly)
+NOINL void sort_proxy(unsigned op) {
+  Model m;
+  m.n = 1; m.e = 4;
+  for (unsigned i = 0; i <= MAXN; ++i) m.idx[i] = 4;
+  for (unsigned i = 0; i <= MAXE; ++i) { m.dst[i] = 0; m.data[i] = vf_nondet_u32(); }
+  GraphW& g = build_api<GraphW>(m);
+  // destinations: arbitrary 32-bit values (the proxy never interprets them)
+  for (unsigned x = 0; x < 4; ++x) { m.dst[x] = vf_nondet_u32(); g.edgeDst.set(x, m.dst[x]); }
+  unsigned i = vf_nondet_u8(), j = vf_nondet_u8();
+  vf_assume(i < 4 && j < 4);
+  auto it = g.edge_sort_begin(0);
+  VF_CHECK(g.edge_sort_end(0) - it == 4);
+  if (op == 0) {
+    std::iter_swap(it + i, it + j);
+    uint32_t td = m.dst[i], tv = m.data[i];
+    m.dst[i] = m.dst[j]; m.data[i] = m.data[j];
+    m.dst[j] = td; m.data[j] = tv;
+  } else if (op == 1) {
+    typename GraphW::edge_sort_iterator::value_type v(*(it + i)); // EdgeSortValue
+    VF_CHECKM(v.rawDst == m.dst[i] && v.get() == m.data[i], "EdgeSortValue read through the proxy is not the slot's (destination, data) pair");
+    *(it + j) = v;
+    m.dst[j] = m.dst[i]; m.data[j] = m.data[i];
+  } else {
+    *(it + j) = *(it + i);
+    m.dst[j] = m.dst[i]; m.data[j] = m.data[i];
+  }
+  for (unsigned x = 0; x < 4; ++x)
+    VF_CHECKM(edge_dst(g, x) == m.dst[x] && edge_data(g, x) == m.data[x], "edge-sort proxy operation did not move (destination, data) as a pair / touched another slot");
+}
+OB(csr_sort_proxy) { sort_proxy(vf_param(0)); }
+
 // ---- lookup
 NOINL void find_linear(unsigned shape) {
   Model m;
@@ -314,6 +350,21 @@ NOINL void find_sorted(unsigned shape, bool inner) {
   }
 }
 } // namespace
+
+
+// two constructing threads (readGraph runs constructFrom(f, tid, total) on every thread; the bodies write disjoint
+// node ranges, so they are run one after the other, either thread first)
+NOINL void enum_file_t2(unsigned shape, unsigned first) {
+  Model m;
+  make_model(m, shape);
+  FileGraph& f = build_file(m, true);
+  GraphW& g    = *new GraphW;
+  g.allocateFrom(f);
+  g.constructFrom(f, first, 2);
+  g.constructFrom(f, 1 - first, 2);
+  check_same(g, m);
+}
+OB(csr_enum_t2) { for_group(0, E4, [](unsigned s) { enum_file_t2(s, vf_param(1)); }); }
 
 #define GROUPS(name, CALL_Q, CALL_T)                                    \
   OB(name) { for_group(0, E4, [](unsigned s) { CALL_Q; }); }               \
